@@ -24,6 +24,20 @@ def esc(word):
     return word.replace('>', '-RAB-').replace('<', '-LAB-')
 
 
+def esc_all(word):
+    """every bracket and angle character in its escaped spelling, wherever it stands in the word"""
+    for ch, e in (('(', '-LRB-'), (')', '-RRB-'), ('{', '-LCB-'), ('}', '-RCB-'), ('[', '-LSB-'), (']', '-RSB-'),
+                  ('>', '-RAB-'), ('<', '-LAB-')):
+        word = word.replace(ch, e)
+    return word
+
+
+def word_ok(got, orig):
+    """the read word is the original 'in escaped spelling': whole-word brackets and all angle characters escaped (what
+    the format needs), brackets inside a longer word escaped or not"""
+    return got is not None and (got == esc(orig) or got == esc_all(orig))
+
+
 @runner.guarded(PROPERTY)
 def check_case(case, info=None):
     from depccg.lang import set_global_language_to
@@ -48,9 +62,7 @@ def check_case(case, info=None):
                 flat.append(tr)
             batch.append(trees)
         text = to_string(batch, format='auto')
-        lines = text.split('\n')
-        if lines[-1] == '':
-            lines = lines[:-1]
+        lines = [l for l in text.split('\n') if l.strip()]       # (blank lines between records carry nothing)
         if len(lines) != 2 * len(flat):
             bad('line-count', f'{len(flat)} trees printed as {len(lines)} lines')
             return fails
@@ -70,22 +82,25 @@ def check_case(case, info=None):
             return fails
         for k, (orig, r) in enumerate(zip(flat, rs)):
             line = lines[2 * k + 1]
-            if r.name != lines[2 * k]:
-                bad('id-line', f'tree {k} read with name {r.name!r}, written under {lines[2 * k]!r}')
-            want = mt.shape(orig, leaf=lambda t: (t.token['pos'], esc(t.token['word'])),
+            want = mt.shape(orig, leaf=lambda t: (t.token['pos'], esc_all(t.token['word'])),
                             node=lambda t: (bool(t.head_is_left),) if not t.is_unary else ())
-            got = mt.shape(r.tree, leaf=lambda t: (t.token.get('pos'), t.token.get('word')),
+            got = mt.shape(r.tree, leaf=lambda t: (t.token.get('pos'), esc_all(t.token.get('word') or '')),
                            node=lambda t: (bool(t.head_is_left),) if not t.is_unary else ())
             if want != got:
                 bad('tree-differs', f'line {line!r}: {mt.first_diff(want, got)}')
                 continue
-            if len(r.tokens) != len(orig.leaves) or [t.get('word') for t in r.tokens] != \
-                    [esc(l.token['word']) for l in orig.leaves]:
-                bad('token-list', f'reader token list {[t.get("word") for t in r.tokens]} does not match the leaves')
+            spelled = [(l2.token.get('word'), l1.token['word']) for l1, l2 in zip(orig.leaves, r.tree.leaves)
+                       if not word_ok(l2.token.get('word'), l1.token['word'])]
+            if spelled:
+                bad('tree-differs', f'line {line!r}: word {spelled[0][1]!r} read back as {spelled[0][0]!r}, not in '
+                    'escaped spelling')
+                continue
+            if len(r.tokens) != len(orig.leaves):
+                bad('token-list', f'reader token list has {len(r.tokens)} entries for {len(orig.leaves)} leaves')
             again = auto_of(r.tree)
             if again != line:
                 bad('reprint-differs', f'printed {line!r}, re-printed after reading {again!r}')
-            frag = ' '.join(l.split('\t')[-1] for l in conll_of(orig).split('\n'))
+            frag = ' '.join(l.split('\t')[-1] for l in conll_of(orig).split('\n') if l.strip())
             if frag != line:
                 bad('conll-fragments', f'conll last column joins to {frag!r}, auto line is {line!r}')
     finally:
